@@ -18,7 +18,7 @@ from ..runner import HarnessError
 
 LEVEL = 'model_checking'
 
-ATOMS = ['R', 'B', 'C', 'D', 'T', 'W', 'X', 'F', 'M']
+ATOMS = ['R', 'B', 'C', 'D', 'T', 'W', 'X', 'F', 'M', 'U']
 COMPOUND = ['if', 'ifelse', 'while', 'forever', 'for', 'tryundo', 'trystop', 'preempt']
 
 
@@ -105,6 +105,9 @@ class Printer:
             return m + '!dfn(x); '
         if k == 'M':
             return m + 'y = 1 - y; '
+        if k == 'U':
+            # a user-defined overload of a terminal builtin's name is an ordinary call that returns
+            return m + ('all_is_broken("w"); ' if self.n % 2 else 'all_is_win(y); ')
         if k == 'if':
             return m + f'if ({self.cond()}) {{ {self.seq(s[1])}}} '
         if k == 'ifelse':
@@ -124,7 +127,8 @@ class Printer:
         raise ValueError(s)
 
 
-PRE = "empty !dfn(int v) { write('~'); !truth_is_defeat(v % 2 == 0); }\n"
+PRE = ("empty !dfn(int v) { write('~'); !truth_is_defeat(v % 2 == 0); }\n"
+       "empty all_is_broken(string why) { write(why); }\nempty all_is_win(int code) { write(code); }\n")
 SENTINEL = 'empty sentinel() { write("FELL"); all_is_broken(); }\n'
 
 KINDS = [('plain', 'int'), ('plain', 'empty'), ('you', 'int'), ('you', 'empty'), ('defeat', 'int'), ('defeat', 'empty')]
@@ -191,8 +195,8 @@ def curated(flavour):
 
 def thin_for(tier, flavour):
     if tier == 'thorough':
-        return 1
-    return 2 if flavour == 'plain' else 5
+        return 1 if flavour == 'plain' else 3
+    return 2 if flavour == 'plain' else 6
 
 
 def items(tier):
@@ -307,8 +311,8 @@ def check_src(st, src, nbits, nmarks, flavour, ret):
 
 def coverage(total, tier):
     cov = std_coverage(total, {
-        'B': 'all statement sequences of total size <= ' + ('4' if tier == 'thorough' else '2 and size 3 (every 2nd for plain, every 5th for you/defeat functions)') + f' over atoms {ATOMS} (R return, B break, C continue, '
-             f'plus {len(CURATED)}+{len(CURATED_YOU)} curated larger loop bodies mixing continue/break/return; D !is_defeat, T !truth_is_defeat(bit), W all_is_win, X all_is_broken, F defeat-function call, M plain statement) and compounds '
+        'B': 'all statement sequences of total size <= ' + ('3 and size 4 (all for plain, every 3rd for you/defeat functions)' if tier == 'thorough' else '2 and size 3 (every 2nd for plain, every 6th for you/defeat functions)') + f' over atoms {ATOMS} (R return, B break, C continue, '
+             f'plus {len(CURATED)}+{len(CURATED_YOU)} curated larger loop bodies mixing continue/break/return; D !is_defeat, T !truth_is_defeat(bit), W all_is_win, X all_is_broken, F defeat-function call, M plain statement, U call of a user-defined overload of all_is_win/all_is_broken) and compounds '
              f'{COMPOUND}, context-valid, as body of {KINDS}; every statement preceded by a distinct marker; all 2^k assignments of the k condition bits',
     })
     for k in ('accepted', 'rejected', 'unspecified', 'lint_rejected', 'lint_identical', 'unreached_but_not_flagged'):
